@@ -479,7 +479,7 @@ pub fn run(ctx: &Ctx) {
     let checked = crate::engine::profile() == "checked";
     ctx.regress(&GrammarMutants);
     ctx.regress(&ByteMutants);
-    ctx.regress(&RawBytes { name: "raw-bytes" });
+    ctx.regress_named(&RawBytes { name: "raw-bytes" }, &["flip-truncate-sweep"]);
     let n = match (t, checked) {
         (Tier::Quick, false) => 200_000,
         (Tier::Quick, true) => 120_000,
